@@ -60,6 +60,43 @@ def valueEq (env : Env) : Nat → Ty → Value → Value → Bool
     | .ref n, a, b => namedEq env (valueEq env f) n a b
     | _, _, _ => false
 
+/-! ## Equal, and not differing in the sign of a zero
+
+For floats that are `==` the bit patterns differ only when both are zeros of different sign
+(`floatEq32_bits` in the proofs); `primEqZ` excludes exactly that case. `valueEqZ` is `valueEq`
+with `primEqZ` at the leaves: the premise of "Equal values that do not differ in the sign of a
+zero have byte-identical encodings". -/
+
+def primEqZ (p : Prim) (a b : Value) : Bool :=
+  primEq p a b &&
+    (match a, b with
+    | .f32 x, .f32 y => UInt32.ofNat x == UInt32.ofNat y
+    | .f64 x, .f64 y => UInt64.ofNat x == UInt64.ofNat y
+    | _, _ => true)
+
+def namedEqZ (env : Env) (eqf : Ty → Value → Value → Bool) (n : TName) (a b : Value) : Bool :=
+  match env.find n, a, b with
+  | some (.typeref p), a, b => primEqZ p a b
+  | some (.enum syms), .enum x, .enum y =>
+    decide (1 ≤ x ∧ x ≤ syms.length) && decide (1 ≤ y ∧ y ≤ syms.length) && x == y
+  | some (.fixed _), .fixed x, .fixed y => x == y
+  | some (.record _ _), .record xs, .record ys =>
+    (allFields env (includeFuel env) n).all (fun fld =>
+      optEqV (eqf fld.ty) (xs.lookup fld.name) (ys.lookup fld.name))
+  | some (.union _ members), .union xs, .union ys =>
+    members.all (fun m => optEqV (eqf m.2) (xs.lookup m.1) (ys.lookup m.1))
+  | _, _, _ => false
+
+def valueEqZ (env : Env) : Nat → Ty → Value → Value → Bool
+  | 0, _, _, _ => false
+  | f + 1, ty, a, b =>
+    match ty, a, b with
+    | .prim p, a, b => primEqZ p a b
+    | .arr t, .arr xs, .arr ys => genericArray (valueEqZ env f t) xs ys
+    | .map t, .map xs, .map ys => genericMap (valueEqZ env f t) xs ys
+    | .ref n, a, b => namedEqZ env (valueEqZ env f) n a b
+    | _, _, _ => false
+
 /-- one field (or union member) of a struct: hashed if present -/
 def hashSlot (hf : Ty → Hash → Value → Hash) (xs : List (Bytes × Value)) (h : Hash) (name : Bytes) (ty : Ty) : Hash :=
   match xs.lookup name with
